@@ -267,6 +267,7 @@ def param_summaries(F, fns):
 
 def run(ctx, files=('lib/library.cpp',)):
     F = ctx.facts
+    r30_2(ctx)
     ctx.rule('R30.1', 'a nullable string from tinyxml2 (Attribute/GetText) is null-tested before it is converted, compared, '
                       'dereferenced or passed to a function that does so')
     repo_fns = [f for f in F.all_fns() if f['file'].startswith(('lib/', 'cli/'))]
@@ -330,3 +331,63 @@ def thorough(ctx):
             ctx.note('other reader: %s %s' % (o['where'], o['what'][:160]))
             o['ok'] = True
             o['what'] = '[outside C30 scope, listed in notes] ' + o['what']
+
+
+def r30_2(ctx):
+    """R30.2  one lookup for per-argument configuration: <arg nr="any"> and <arg nr="variadic"> are stored under key -1 and Library::getarg falls back to that
+    entry when an argument number has no entry of its own.  A keyed lookup in Library::Function::argumentChecks by argument number anywhere else bypasses the
+    fallback, so restrictions declared for "any"/"variadic" arguments (valid ranges, not-bool, strz, not-null ...) are silently not applied there.  Only
+    Library::getarg and the loader index the map by argument number; other code iterates it or asks for the key -1 explicitly."""
+    F = ctx.facts
+    ctx.rule('R30.2', 'per-argument configuration is looked up by argument number only through Library::getarg')
+    FIELD = 'Library::Function::argumentChecks'
+    ALLOWED = ('Library::getarg', 'Library::loadFunction')
+    NOT_ARMED = {'CheckLeakAutoVar::checkScope': 'looks up the <arg direction=..> of numbered arguments for the leak check; bypasses the any/variadic fallback too, but the direction '
+                                                 'attribute is not one of the restrictions this property names'}
+    KEYED = ('find', 'at', 'count', 'operator[]', 'lower_bound', 'equal_range')
+    n = 0
+
+    def minus_one(a):
+        a = strip(a)
+        while a is not None and a.get('k') == 'ImplicitCastExpr' and a.get('c'):
+            a = a['c'][0]
+        return a is not None and a.get('k') == 'UnaryOperator' and a.get('op') == '-' and (strip(a['c'][0]) or {}).get('v') == '1'
+    for f in F.all_fns():
+        if not f['file'].startswith('lib/') or not any(a['n'] == FIELD for a in f['acc']):
+            continue
+        b = F.body(f)
+        if b is None:
+            continue
+        aliases = set()
+        for x in walk(b['body']):
+            if x.get('k') == 'VarDecl' and x.get('init') is not None and any(y.get('k') == 'MemberExpr' and y.get('n') == FIELD for y in walk(x['init'])) and \
+                    not any(y.get('k') in ('CXXMemberCallExpr', 'CXXOperatorCallExpr') for y in walk(x['init'])):
+                aliases.add(x['di'])
+        for x in walk(b['body']):
+            if x.get('k') in ('CXXMemberCallExpr', 'CXXOperatorCallExpr'):
+                if x['k'] == 'CXXMemberCallExpr':
+                    meth = (x.get('fn') or '').split('::')[-1]
+                    obj = x['c'][0]
+                    args = call_args(x)
+                else:
+                    meth = 'operator[]' if x.get('op') == '[]' else None
+                    obj = x['c'][1] if len(x.get('c', ())) > 1 else None
+                    args = x['c'][2:]
+                if meth not in KEYED or obj is None:
+                    continue
+                on_map = any((y.get('k') == 'MemberExpr' and y.get('n') == FIELD) or (y.get('k') == 'DeclRefExpr' and y.get('di') in aliases) for y in walk(obj))
+                if not on_map:
+                    continue
+                n += 1
+                if f['name'] in NOT_ARMED:
+                    ctx.note('R30.2 not armed: %s (%s:%s) - %s' % (f['name'], f['file'], x['l'], NOT_ARMED[f['name']]))
+                    continue
+                if f['name'] in ALLOWED:
+                    ctx.ob('R30.2', 'argchecks-lookup:%s' % f['name'], True, '%s indexes argumentChecks (the fallback implementation / the loader)' % f['name'], '%s:%s' % (f['file'], x['l']))
+                    continue
+                ok = bool(args) and all(minus_one(a) for a in args[:1])
+                ctx.ob('R30.2', 'argchecks-lookup:%s' % f['name'], ok, ('%s asks for the "any/variadic" entry (-1) explicitly' % f['name']) if ok else
+                       ('%s looks an argument number up in Library::Function::argumentChecks with %s() at line %s instead of Library::getarg: arguments that are covered only by '
+                        '<arg nr="any"> / <arg nr="variadic"> are treated as unconfigured there, so their declared restrictions are not applied' % (f['name'], meth, x['l'])),
+                       '%s:%s' % (f['file'], x['l']))
+    ctx.floor('R30.2 keyed lookups in argumentChecks', n, 3)
